@@ -2,39 +2,24 @@ package main
 
 import (
 	"fmt"
-	"os"
-	"strconv"
-	"time"
+	"math/big"
 
-	"verif/internal/explore"
-	"verif/internal/fix"
+	"github.com/bnb-chain/tss-lib/v2/common"
+
+	"verif/internal/core"
 	"verif/internal/netrun"
+	"verif/internal/ref"
+	"verif/internal/scen"
+	"verif/internal/statehash"
 )
 
 func main() {
-	n, _ := strconv.Atoi(os.Args[1])
-	dups, _ := strconv.Atoi(os.Args[2])
-	t0 := time.Now()
-	mk := func() *netrun.Network {
-		nw, err := netrun.New(netrun.Config{Proto: netrun.EddsaKeygen, Keys: fix.SmallKeys(n), Threshold: 1})
-		if err != nil {
-			panic(err)
-		}
-		return nw
-	}
-	s := explore.NewSys(mk)
-	res := s.Explore(explore.Options{Workers: 16, MaxDups: dups})
-	fmt.Printf("states=%d trans=%d depth=%d terminals=%d localtrans=%d nonconf=%d  %.1fs\n", res.States, res.Transitions, res.MaxDepth, len(res.Terminals), s.LocalTransitions, s.NonConfluent, time.Since(t0).Seconds())
-	for p := range s.Tabs {
-		fmt.Printf(" node %d local states %d\n", p, len(s.Tabs[p]))
-	}
-	for _, g := range res.Terminals {
-		tr := res.Trace(g)
-		mm, _ := s.JointReplay(tr)
-		fmt.Println(" terminal depth", g.Depth, "joint mismatch:", mm)
-		for p := 0; p < s.N; p++ {
-			l := s.Local(g, p)
-			fmt.Printf("   node %d ends=%d errs=%d round=%d waiting=%v\n", p, len(l.Obs.Ends), len(l.Obs.Errs), l.Obs.Round, l.Obs.Waiting)
-		}
-	}
+	keys := scen.EcKey("small", 2, 1, 1)
+	cfg := netrun.Config{Proto: netrun.EcdsaSigning, EcKeys: keys, Threshold: 1, Msg: big.NewInt(5), SeedOverride: map[int]string{0: "a", 1: "b"}}
+	nw, _ := netrun.New(cfg)
+	nw.Start(0)
+	k := statehash.FieldBig(nw.Nodes[0].Party, "temp", "k")
+	fmt.Println("actual k", k)
+	fmt.Println("pred   k", common.GetRandomPositiveInt(core.NewDRBG("a"), ref.Secp256k1.N))
+	fmt.Println("reads", nw.Nodes[0].Rand.Reads)
 }
